@@ -539,6 +539,23 @@ def run_patterns(case):
         for pat, matches in pats:
             got = lint({}, pat + "\n")
             out.append({"level": "repo", "pattern": pat, "matches": matches, "before": v0, "after": got, "expected": [] if matches else v0, "pkg": None})
+        # directory patterns: whole path components only (`gen/` covers gen/x and src/gen/x, not src/codegen/x nor src/regen_x);
+        # given in .thailintignore and in the `ignore:` list of .thailint.yaml
+        for sub, fname, pat, matches in [("gen", name, "gen/", True), ("src/gen", name, "gen/", True), ("src/codegen", name, "gen/", False),
+                                         ("src", "regen_" + name, "gen/", False), ("src/gen2", name, "gen/", False), ("src/gen", name, "src/gen/", True),
+                                         ("src/gen", name, "**/gen/", True), ("lib/vendor", name, "vendor/", True), ("lib/vendored", name, "vendor/", False)]:
+            for via in ("thailintignore", "config"):
+                with scratch_dir("tv-c04-patd-") as root:
+                    (root / sub).mkdir(parents=True, exist_ok=True)
+                    f = root / sub / fname
+                    f.write_text(text, encoding="utf-8")
+                    if via == "thailintignore":
+                        (root / ".thailintignore").write_text(pat + "\n")
+                    else:
+                        (root / ".thailint.yaml").write_text("ignore:\n  - \"" + pat + "\"\n")
+                    got = _lint_in(root, f, {})
+                out.append({"level": "repo-dir:" + via, "pattern": f"{pat} on {sub}/{fname}", "matches": matches, "before": v0, "after": got,
+                            "expected": [] if matches else v0, "pkg": None})
         for pkg in sorted({PKG_OF_PREFIX[prefix_of(v[0])] for v in v0} & set(CONFIG_KEY)):
             mine = [v for v in v0 if PKG_OF_PREFIX[prefix_of(v[0])] == pkg]
             rest = [v for v in v0 if PKG_OF_PREFIX[prefix_of(v[0])] != pkg]
@@ -864,6 +881,10 @@ def run(tier: str, seed: int, replay: str | None = None) -> int:
     for f in own["findings"]:   # known.d/C04.json is this check's own list; known_findings.json is assembled from it by tools/mkmanifest.py
         if f.get("status") == "known":
             chk.known["known"].setdefault(f["key"], f)
+            chk.known["fixed"].pop(f["key"], None)
+        elif str(f.get("status", "")).startswith("fixed"):   # a fixed entry suppresses nothing: observing it again is a VIOLATION
+            chk.known["fixed"].setdefault(f["key"], f)
+            chk.known["known"].pop(f["key"], None)
     chk.rule = ("three levels. leaf: random strings over directive fragments, white space and the Unicode line boundaries, Coq string runtime = CPython "
                 "(splitlines, lower, strip, split, the regex templates). unit: seeded abstract files (3-30 lines mixing code lines, same-line / next-line / "
                 "block / file-level directives in # and // style, rule lists spelled as full id, prefix, prefix.*, alias, any case, other rules, bare) rendered "
